@@ -1,4 +1,5 @@
 #!/bin/bash
+# DEMO_RUSTFLAGS (optional): RUSTFLAGS for the demo runs only (e.g. --cfg fe2o3_amqp_verif when the demo drives the facade)
 # confirm_mut.sh <ID> <demo-dest-relpath> <mod-file-relpath|-> <mod-line|-> <cargo test args...>
 # In the agent's scratch worktree /tmp/mut/<ID> (patch applied): checks that the patch applies at
 # /repo HEAD, the existing suite still passes with it, the demo fails with it and passes without.
@@ -8,11 +9,11 @@ set -u
 cd $W || exit 9
 git checkout -q -- . && git clean -fdq
 git apply --check $OUT/patch.diff || { echo "PATCH DOES NOT APPLY"; exit 9; }
-install_demo() { cp $OUT/demo.rs $W/$DEST; if [ "$MODF" != "-" ]; then printf '\n%s\n' "$MODL" >> $W/$MODF; fi; }
-remove_demo() { rm -f $W/$DEST; if [ "$MODF" != "-" ]; then git checkout -q -- $MODF; fi; }
+install_demo() { mkdir -p $(dirname $W/$DEST); cp $OUT/demo.rs $W/$DEST; if [ "$MODF" != "-" ]; then printf '\n%s\n' "$MODL" >> $W/$MODF; fi; }
+remove_demo() { rm -f $W/$DEST; rmdir $(dirname $W/$DEST) 2>/dev/null; if [ "$MODF" != "-" ]; then git checkout -q -- $MODF; fi; }
 # 1. without the change: demo passes
 install_demo
-CARGO_TARGET_DIR=$T cargo test --offline "$@" > $OUT/confirm.demo_without.log 2>&1; RC_WITHOUT=$?
+RUSTFLAGS="${DEMO_RUSTFLAGS:-}" CARGO_TARGET_DIR=$T cargo test --offline "$@" > $OUT/confirm.demo_without.log 2>&1; RC_WITHOUT=$?
 remove_demo
 # 2. with the change: suite passes, demo fails
 git apply $OUT/patch.diff
@@ -29,7 +30,7 @@ missing=[m for m in short if m not in ok and m.split('::')[-1] not in ok]
 print("SUITE_WITH_CHANGE missing_from_baseline=%d"%len(missing), missing[:5])
 PY
 install_demo
-CARGO_TARGET_DIR=$T cargo test --offline "$@" > $OUT/confirm.demo_with.log 2>&1; RC_WITH=$?
+RUSTFLAGS="${DEMO_RUSTFLAGS:-}" CARGO_TARGET_DIR=$T cargo test --offline "$@" > $OUT/confirm.demo_with.log 2>&1; RC_WITH=$?
 remove_demo
 echo "DEMO without-change rc=$RC_WITHOUT (want 0)  with-change rc=$RC_WITH (want !=0)"
 grep -h "^test result" $OUT/confirm.demo_without.log | tail -2; grep -h "^test result" $OUT/confirm.demo_with.log | tail -2
